@@ -377,6 +377,11 @@ class HomeKitConnection:
             await self._connector
         except asyncio.CancelledError:
             pass
+        except Exception:
+            # The connector already ended with an error (e.g. AuthenticationError)
+            # that was reported to whoever waited for the connection. Stopping
+            # it must not fail, otherwise close() never drops the transport.
+            pass
 
     async def get(self, target: str) -> HttpResponse:
         """
